@@ -78,7 +78,10 @@ class Cache:
         of things that are convertable to strings.
         """
         if isinstance(arg, np.ndarray):
-            self.ahash.update(arg.view(np.uint8))
+            # The data type and the shape are part of the identity of an
+            # array (the same bytes may represent different values).
+            self.ahash.update(f"{arg.dtype.str}{arg.shape}".encode('utf-8'))
+            self.ahash.update(np.ascontiguousarray(arg).view(np.uint8))
         elif isinstance(arg, list):
             [self._update_hash(a) for a in arg]
         else:
